@@ -2,7 +2,7 @@
 from .framework import rule
 from .ev import all_guards, guarded, g_call, g_cmp, g_try_ok, try_inner
 from .mir import tstr, callee_of, path_matches, strip_refs, subterms, tmatch, find_sub, strip_generics
-from .fsmodel import VM, VMD, FATVOL, call_matches, ok_returns
+from .fsmodel import is_cluster_const, VM, VMD, FATVOL, call_matches, ok_returns
 from .dataflow import var_def_terms, roots
 from .rules_guard import has_sub, last_field, is_variant
 from .rules_fs import fat_arms
@@ -183,7 +183,7 @@ def ls5(F, R):
     for b, i, s in fn.stmts():
         if s["k"] == "Assign" and not s["p"]["proj"]:
             v = fn.term_of_rvalue(s["rv"], b)
-            if v[0] == "c" and v[2] and v[2].endswith("ClusterId::ROOT_DIR"):
+            if is_cluster_const(None, v, "ROOT_DIR"):
                 roots_.append((b, i))
     if not roots_:
         R.bad(fn, "anchor", "no ROOT_DIR mapping in get_entry", kind="anchor-missing")
@@ -356,11 +356,12 @@ def index_class(fn, term):
                     names.add("." + e)
         if s[0] == "arg":
             names.add("arg:" + (s[2] or ""))
+            names.add("arg#%d" % s[1])
     if "offset_bytes" in names:
         return "FAT"
     if ".info_location" in names:
         return "INFO"
-    if "checked_add" in names and ".0" in names and any(n.startswith("arg:lba_start") for n in names) and "fs_info_block" in names:
+    if "checked_add" in names and ".0" in names and (fn.npath.endswith("parse_volume") and "arg#2" in names) and "fs_info_block" in names:
         return "INFO"
     if ".entry_block" in names:
         return "ENTRY"
@@ -375,7 +376,7 @@ def index_class(fn, term):
         return "+".join(sorted(cls))
     rs = _roots(fn, term)
     if rs and all(r[0] == "arg" for r in rs):
-        return "PARAM:" + ",".join(sorted(r[2] or "?" for r in rs))
+        return "PARAM:" + ",".join(sorted("#%d" % r[1] for r in rs))     # by position: parameter names are free
     if rs and all(r[0] in ("c", "agg") for r in rs):
         return "CONST"
     return "UNKNOWN(%s)" % ",".join(sorted(names))[:80]
@@ -390,12 +391,12 @@ PV_TABLE = {
     "FatVolume::write_new_directory_entry": {"read_mut": {"CLUSTER", "ROOTDIR16", "CLUSTER+ROOTDIR16"}},
     "FatVolume::iterate_fat16": {"read": {"CLUSTER", "ROOTDIR16", "CLUSTER+ROOTDIR16"}},
     "FatVolume::iterate_fat32": {"read": {"CLUSTER"}},
-    "FatVolume::find_entry_in_block": {"read": {"PARAM:block_idx"}},
-    "FatVolume::delete_entry_in_block": {"read_mut": {"PARAM:block_idx"}},
+    "FatVolume::find_entry_in_block": {"read": {"PARAM:#5"}},        # (self, block_cache, fat_type, match_name, block_idx)
+    "FatVolume::delete_entry_in_block": {"read_mut": {"PARAM:#4"}},   # (self, block_cache, match_name, block_idx)
     "FatVolume::alloc_cluster": {"blank_mut": {"CLUSTER"}},
     "FatVolume::write_entry_to_disk": {"read_mut": {"ENTRY"}},
     "FatVolume::make_dir": {"blank_mut": {"CLUSTER"}},
-    "fat::volume::parse_volume": {"read": {"PARAM:lba_start", "INFO"}},
+    "fat::volume::parse_volume": {"read": {"PARAM:#2", "INFO"}},       # (block_cache, lba_start, num_blocks)
     "VolumeManager::open_raw_volume": {"read": {"CONST"}},
     "VolumeManager::read": {"read": {"DATA"}},
     "VolumeManager::write": {"read_mut": {"DATA"}, "blank_mut": {"DATA"}},
@@ -441,7 +442,7 @@ def pv1(F, R):
         ai = 5 if (callee_of(t) or "").endswith("DirEntry::new") else 2
         a = f.term_of_operand(t["args"][ai], b)
         cls = index_class(f, a)
-        R.require(cls in ("CLUSTER", "ROOTDIR16", "CLUSTER+ROOTDIR16") or cls.startswith("PARAM:block_idx"), f, "entry_block-source", "a directory entry's recorded block is of class %s" % cls, f.loc(b))
+        R.require(cls in ("CLUSTER", "ROOTDIR16", "CLUSTER+ROOTDIR16") or (cls == "PARAM:#5" and f.npath.endswith("find_entry_in_block")), f, "entry_block-source", "a directory entry's recorded block is of class %s" % cls, f.loc(b))
     for suf, tab in PV_TABLE.items():
         for kind in tab:
             if (suf, kind) not in seen:
@@ -988,7 +989,7 @@ def rd1(F, R):
                and sum(1 for x in ma if has_sub(x, lambda q: q[0] == "call" and q[1] and path_matches(q[1], "FileInfo::left"))) == 1)
         space_form = ([is_space(x) for x in ma if is_space(x)] or [None])[0]
         R.require(okn, fn, "to_copy", "to_copy must be min(block_avail, space, file.left()); got %s" % (tstr(tc)[:200] if tc else None), fn.loc(b))
-        R.require("buffer" in tstr(dst) and has_sub(src, lambda q: q[0] == "call" and q[1] and path_matches(q[1], "BlockCache::read")), fn, "copy-direction", "data must flow from the cached block into the caller's buffer", fn.loc(b))
+        R.require(has_sub(dst, lambda q: q[:2] == ("arg", 3)) and has_sub(src, lambda q: q[0] == "call" and q[1] and path_matches(q[1], "BlockCache::read")), fn, "copy-direction", "data must flow from the cached block into the caller's buffer", fn.loc(b))
         # bookkeeping after the copy
         names = {}
         for l, loc in enumerate(fn.locals):
@@ -1040,7 +1041,7 @@ def wr1(F, R):
             tc = e["$n"] if e else None
         if ok:
             e2 = tmatch(rs["$b"], ("bin", "Add", "$x", "$n"))
-            ok = e2 is not None and e2["$x"] == rs["$a"] and e2["$n"] == tc and strip_refs(rs["$a"])[0] == "var" and "buffer" in tstr(src)
+            ok = e2 is not None and e2["$x"] == rs["$a"] and e2["$n"] == tc and strip_refs(rs["$a"])[0] == "var" and has_sub(src, lambda q: q[:2] == ("arg", 3))
         R.require(ok, fn, "copy-ranges", "the copy must be block[block_offset..block_offset+n] <- buffer[written..written+n] with the same n", fn.loc(b))
         okn = False
         if tc is not None:
@@ -1052,11 +1053,15 @@ def wr1(F, R):
             okn = e3 is not None and e3["$written"] == (rs["$a"] if rs else None)
             if okn:
                 tot = e3["$total"]
-                okn = tmatch(tot, ("call", "min", [("any", ("call", "len"), ("un", "PtrMetadata", "_")), "_"])) is not None and "MAX_FILE_SIZE" in tstr(tot) and "current_offset" in tstr(tot)
+                okn = tmatch(tot, ("call", "min", [("any", ("call", "len"), ("un", "PtrMetadata", "_")), "_"])) is not None and ("MAX_FILE_SIZE" in tstr(tot) or has_sub(tot, lambda q: q[:2] == ("c", 0xFFFFFFFF))) and "current_offset" in tstr(tot)
         R.require(okn, fn, "to_copy", "to_copy must be min(block_avail, min(buffer.len(), MAX_FILE_SIZE - current_offset) - written); got %s" % (tstr(tc)[:220] if tc else None), fn.loc(b))
         # written += to_copy
         wv = strip_refs(rs["$a"]) if rs else None
-        okw = wv is not None and wv[0] == "var" and sorted(tstr(d)[:14] for d in var_def_terms(fn, wv[1])) == sorted(["0", "Add(written, m"[:14]]) and any(d[0] == "bin" and d[3] == tc for d in var_def_terms(fn, wv[1]))
+        okw = False
+        if wv is not None and wv[0] == "var":
+            wds = [strip_refs(d) for d in var_def_terms(fn, wv[1])]
+            # two definitions: 0, and itself + to_copy
+            okw = len(wds) == 2 and any(d[:2] == ("c", 0) for d in wds) and any(d[0] == "bin" and d[1] == "Add" and strip_refs(d[2])[:2] == ("var", wv[1]) and d[3] == tc for d in wds)
         R.require(okw, fn, "written+=to_copy", "written must start at 0 and advance by to_copy", fn.loc(b))
     sk = [(b, t) for b, t in fn.calls() if call_matches(t, ("FileInfo::seek_from_start",))]
     oks = len(sk) == 1
@@ -1233,4 +1238,6 @@ def fi1(F, R):
     R.require(t is not None and tmatch(t, size) is not None, f, "length", "length() must be entry.size", f.loc(0))
     f = F.fn("FileInfo::update_length")
     st = [(f.place_str(s["p"]), tstr(f.term_of_rvalue(s["rv"], b))) for b, i, s in f.stmts() if s["k"] == "Assign" and s["p"]["proj"]]
-    R.require(st == [("(*self).entry.size", "new")], f, "update_length", "update_length must store exactly entry.size = new, got %s" % st, f.loc(0))
+    st_ok = [(s["p"]["l"] == 1 and [e[2] for e in s["p"]["proj"] if e[0] == "field"] == ["entry", "size"] and strip_refs(f.term_of_rvalue(s["rv"], b))[:2] == ("arg", 2))
+             for b, i, s in f.stmts() if s["k"] == "Assign" and s["p"]["proj"]]
+    R.require(st_ok == [True], f, "update_length", "update_length must store exactly entry.size = new, got %s" % st, f.loc(0))
